@@ -140,3 +140,16 @@ def shutdown_then_raise(addr, msg='boom-mid-call'):
 def shutdown_then_return(addr, value):
   _request_shutdown(addr)
   return value
+
+
+class Unpicklable:
+  """An argument that cannot be pickled (submission fails on the client)."""
+
+  def __init__(self, tag):
+    self.tag = tag
+
+  def __reduce__(self):
+    raise TypeError(f'cannot pickle {self.tag}')
+
+  def __repr__(self):
+    return f'Unpicklable({self.tag})'
